@@ -1,6 +1,6 @@
 (** C09 — correspondence runner: compares the model (Model/Format.v, Model/Btree.v) with what the harness
     (harness/overlay/index/zz_verif_c09_test.go) observed on the implementation. *)
-From ZV Require Import Lib.Base Lib.Varint Generated.FormatConsts Model.Format Model.Btree Model.DocCheck.
+From ZV Require Import Lib.Base Lib.Varint Generated.FormatConsts Model.Format Model.Btree Model.DocCheck Model.FormatMeta.
 Open Scope N_scope.
 
 Record doc_out := mkDocOut {
@@ -18,6 +18,7 @@ Record obs := mkObs {
 
 Inductive c09case :=
 | CShard (next : bool) (repos : list (list (list N) * list doc_in)) (o : opaque) (file : list N) (ob : obs)
+         (plain : bool)      (* IndexMetadata.PlainASCII as the reader parsed it from the JSON metadata *)
 | CBtree (bucket v : nat) (keys probes : list N) (outs : list (N * N)) (last : Z)
 | CCodec (kind : N) (xs enc dec : list N)
 | CSeq (sizeMax max : N) (docs : list (list N * bool)) (verdicts : list N).
@@ -101,10 +102,11 @@ Definition check_postings (f : ifile) (ps : pstate) (sec pidx : N * N) : bool :=
 
 Definition check_case (c : c09case) : bool :=
   match c with
-  | CShard next repos o file ob =>
+  | CShard next repos o file ob plain =>
     let b := add_repos repos 0 b_empty in
     let f := mem_file file in
     bytes_eqb (write_shard next b o) file
+    && Bool.eqb plain (meta_plain_ascii b)
     && match load_shard f next with
        | Ok d => check_read f d ob
                  && check_postings f (b_cp b) (i_ngramSec d) (i_postingIndex d)
